@@ -346,6 +346,10 @@ class AsyncFIXConnection:
                         self._msg_buffer = self._msg_buffer[parsed_length:]
 
                     if decoded_msg is None:
+                        if parsed_length > 0 and self._msg_buffer:
+                            # junk or a refused frame was dropped: the frames behind
+                            #  it are in the buffer already, do not wait for a read
+                            continue
                         break
 
                     try:
